@@ -1,6 +1,7 @@
 import ExoVerif.Driver.Common
 import ExoVerif.Model.Auth
 import ExoVerif.Model.AuthMsgs
+import ExoVerif.Model.AuthOwners
 /- driver for the C10 correspondence. The harness abstracts every real request into the facts the
    decision functions read (computed from the real state and the real transaction):
    `auth <entry> g a o p v <sig> eq m au x`
@@ -123,9 +124,27 @@ def msgDecide (url : String) (routed : Bool) (sig : String) (eq m au v same isOp
         "accept:" ++ joinWith "," ((msgRecordOwners cls r).map (fun a => if a == r.origin then "signer" else "other"))
       else "reject"
 
-def step (u : Unit) (w : List String) : Unit × String :=
+/-- owner lists (harness/dom_auth_ownerlists.go): `auth.own <register|update|deregister|createTask> <avs> <sender> <ok> <n> <owner>*` —
+    the AVS contract `avs` calls with sender argument `sender` (indices), ok = the payload conditions besides the identity
+    hold, owners = the owner list of the payload; answer `accept|reject o=<stored list of the AVS afterwards | ->` -/
+def ownStep (s : AuthOwners.Owners) (op : String) (avs sender : Nat) (ok : Bool) (owners : List Nat) : AuthOwners.Owners × String :=
+  let o : Option AuthOwners.Op := match op with
+    | "register" => some (.register avs sender owners) | "update" => some (.update avs sender owners)
+    | "deregister" => some (.deregister avs sender) | "createTask" => some (.createTask avs sender) | _ => none
+  match o with
+  | none => (s, "bad-op")
+  | some o =>
+    let s' := AuthOwners.step s o ok
+    let l := match AuthOwners.lookup s' avs with
+      | none => "-"
+      | some l => "[" ++ joinWith "," (l.map toString) ++ "]"
+    (s', (if AuthOwners.admitOwn s o ok then "accept" else "reject") ++ " o=" ++ l)
+
+def step (u : AuthOwners.Owners) (w : List String) : AuthOwners.Owners × String :=
   match w with
-  | ["auth.reset"] => (u, "ok")
+  | ["auth.reset"] => ([], "ok")
+  | "auth.own" :: op :: avs :: sender :: ok :: n :: owners =>
+    if parseNat! n != owners.length then (u, "bad-op") else ownStep u op (parseNat! avs) (parseNat! sender) (b ok) (owners.map parseNat!)
   | "auth.oracleTx" :: rest =>
     match oracleTxPairs rest with
     | some ps => (u, oracleTxDecide ps)
@@ -153,6 +172,6 @@ def step (u : Unit) (w : List String) : Unit × String :=
       | none => (u, "unknown-entry")
   | _ => (u, "bad-op")
 
-def main : IO Unit := runDriver () step
+def main : IO Unit := runDriver ([] : AuthOwners.Owners) step
 
 end ExoVerif.Driver.Auth
